@@ -1312,6 +1312,11 @@ class Engine:
             raise EngineError("rstrip(chars)")
         return SStr(self.c.rstrip(s.t))
 
+    def m_SStr_split(self, path, s, e):
+        if len(e.args) == 2 and isinstance(e.args[1], ast.Constant) and e.args[1].value == 1:
+            return SSplit(s.t, self.to_str(path, self.ev(path, e.args[0])))
+        raise EngineError("str.split form not supported (only split(sep, 1))")
+
     def m_SStr_lstrip(self, path, s, e):
         if e.args:
             raise EngineError("lstrip(chars)")
@@ -1319,7 +1324,7 @@ class Engine:
 
     def m_SStr_strip(self, path, s, e):
         if e.args:
-            raise EngineError("strip(chars)")
+            return SStr(self.c.strip_chars(s.t, self.to_str(path, self.ev(path, e.args[0]))))
         r = self.c.strip(s.t)
         # ground instances of facts true of str.strip: it never lengthens, and is idempotent
         path.assume(z3.And(z3.Length(r) <= z3.Length(s.t), self.c.strip(r) == r))
@@ -1473,6 +1478,18 @@ class Engine:
                 path.heap.list_set(base, z3.Concat(z3.SubSeq(seq, 0, j), z3.Unit(self.elem_term(path, base, v)), z3.SubSeq(seq, j + 1, n - j - 1)))
                 return
             raise EngineError("subscript assignment form")
+        if isinstance(tgt, (ast.Tuple, ast.List)) and isinstance(v, SSplit):
+            if len(tgt.elts) != 2:
+                raise EngineError("unpacking split(sep, 1) into other than two names")
+            found = z3.Contains(v.s, v.sep)
+            if "ValueError" in path.catch:
+                raise _Fork(found, "ValueError")
+            if "!ValueError" not in path.catch:
+                self.oblige(path, found, f"safety.unpack.{self.lab(tgt)}", "pre", "split(sep, 1) yields two parts (no ValueError on unpacking)")
+            i = z3.IndexOf(v.s, v.sep, 0)
+            self.assign(path, tgt.elts[0], SStr(z3.SubString(v.s, 0, i)))
+            self.assign(path, tgt.elts[1], SStr(z3.SubString(v.s, i + z3.Length(v.sep), z3.Length(v.s) - i - z3.Length(v.sep))))
+            return
         if isinstance(tgt, (ast.Tuple, ast.List)):
             if isinstance(v, STuple) and len(v.items) == len(tgt.elts):
                 for t, x in zip(tgt.elts, v.items):
